@@ -14,18 +14,19 @@ EXPLANATION = (
     "lists of every length (comprehension invariant). Composition (2)+(3) => group inverse restores is lemma M4 (Lean). "
     "(4) the real UserUpdateSegmentation constructor (contracts/paint.py, abstract world states, updated_pixels of every length): its actions "
     "list is a chain from the entry world to the final world, so (3)+M4 apply to it. "
-    "The relabel walk body is proved against its contract (contracts/walk.py). BOUNDED STAND-IN: its lookup bookkeeping. Segmentation part: see C07 units.")
+    "The relabel walk body is proved against its whole contract (attributes and lookups; contracts/walk.py, contracts/bookkeeping.py). Segmentation part: see C07 units.")
 ASSUMPTIONS = ["observable state as in the property: nodes, edges, registered feature values, segmentation; max ids / counters / list order excluded",
                "attribute values stored on the graph are never raw ndarrays (the library's writers convert them)",
                "without segmentation the position is a registered node feature present on every node"]
 LEMMAS = ["M4 reverse_inverts (Lean)", "M1b lineage ids equal along descendant paths", "M3 facts of below"]
-NOT_UNDER_CONTRACT = ["bookkeeping helpers called at the end of the relabel walk (bounded stand-in)", "pixel-level effect of UserUpdateSegmentation (which sub-actions a stroke needs: bounded stand-in paint-strokes-exhaustive)"]
+NOT_UNDER_CONTRACT = ["pixel-level effect of UserUpdateSegmentation (which sub-actions a stroke needs: bounded stand-in paint-strokes-exhaustive)"]
 
 
 def units(tier):
     from contracts import walk
     from contracts import paint
-    return paint.units() + walk.units() + primitives.invert_units() + groups.units() + useractions.units(UA_ALL, {"lineage_inv": True}) + primitives.units()
+    from contracts import bookkeeping
+    return paint.units() + walk.units() + bookkeeping.units() + primitives.invert_units() + groups.units() + useractions.units(UA_ALL, {"lineage_inv": True}) + primitives.units()
 
 
 def bounded(tier, seed):
